@@ -154,6 +154,15 @@ ROWS = {
                      c_decl="", c_arg="&{obj}", c_in="vt_obj({obj}.addr);", vals=["1"] * 6, needs_obj=True),
 }
 
+# char ** (docs/declarations.rst "char **names +intent(in)"): an array of CHARACTER(len=*) becomes an array of NUL
+# terminated strings, each without its trailing blanks.  The library sees the strings joined with '|'; the Fortran
+# caller logs its elements trimmed and joined the same way (Fortran front only).
+STRV_VALS = ['"dog", "cat", "monkey", "ox"', '"a b", "", "xyz  ", " q"', '" lead", "x", "y", "z"', '"one", "two", "three", "four"',
+             '"", "", "", ""', '"abcdefghijkl", "m", "no", "p q r"']
+ROWS["cstrv_in"] = dict(yaml="char **{n} +intent(in)", cxx="char **{n}", ty="str", intent="in", size_of=True,
+                        lib_in='{{ char b_[200]; b_[0] = 0; for (int i_ = 0; i_ < {m}; i_++) {{ if (i_) strcat(b_, "|"); strcat(b_, {n}[i_]); }} vt_str(b_, -1); }}',
+                        acc="for (int i_ = 0; i_ < {m}; i_++) acc += (long)strlen({n}[i_]);", vals=STRV_VALS)
+
 # typedefs (docs/tutorial.rst "Typedef"): the library's header names a native type; the wrappers see through it
 ROWS["tdint_v"] = dict(ROWS["int_v"], yaml="TypeID {n}", cxx="TypeID {n}")
 ROWS["tdstr_in"] = dict(ROWS["cstr_in"], yaml="const Name *{n}", cxx="const Name *{n}")
@@ -232,6 +241,12 @@ for _k, _T, _ty, _fd, _vals in NATIVE_KINDS:
                        lib_out=_vt + "(rv);", c_decl=_T + " rv;", c_out=_vt + "(rv);")
     KIND_RESULTS.append(_k)
 
+# a single character returned by value (docs/types.rst "char"): Fortran sees character(len=1), or with +len(N) a longer
+# result whose remaining characters are blank
+RESULTS["char1"] = dict(yaml="char", cxx="char", ty="str", lib_make="char rv = (char)('A' + (acc % 26));",
+                        lib_out="{ char b_[2] = { rv, 0 }; vt_str(b_, 1); }", c_decl="char rv;", c_out="{ char b_[2] = { rv, 0 }; vt_str(b_, 1); }")
+RESULTS["char3"] = dict(RESULTS["char1"], attrs=" +len(3)")
+KIND_RESULTS += ["char1", "char3"]
 RESULTS["ushortint"] = dict(RESULTS["ushort"], yaml="unsigned short int", cxx="unsigned short int",
                             lib_make="unsigned short int rv = (unsigned short int)(40000 + (acc % 100));", c_decl="unsigned short int rv;")
 KIND_RESULTS.append("ushortint")
@@ -361,6 +376,9 @@ for _k, _T, _ty, _fd, _vals in NATIVE_KINDS:
     else:
         FROWS[_k + "_v"] = dict(decl=_fd + " :: {n}", set="{n} = {v}", arg="{n}", fin="call vt_int(int({n}, C_LONG))", vk="int")
 
+FROWS["cstrv_in"] = dict(decl="character(len={L}) :: {n}(4)", set="{n} = [character(len={L}) :: {v}]", arg="{n}(1:{m})",
+                         fin="call vt_strv({n}(1:{m}))", vk="strv")
+
 FRESULTS = {
     "void": dict(),
     "int": dict(decl="integer(C_INT) :: rv", fout="call vt_int(int(rv, C_LONG))"),
@@ -384,6 +402,10 @@ for _k, _T, _ty, _fd, _vals in NATIVE_KINDS:
     FRESULTS[_k] = dict(decl=_fd + " :: rv", fout=("call vt_dbl(real(rv, C_DOUBLE))" if _ty == "dbl" else "call vt_int(int(rv, C_LONG))"))
 
 
+FRESULTS["char1"] = dict(decl="character(len=1) :: rv", fout="call vt_str(rv, len(rv, kind=C_LONG))", back="pad")
+FRESULTS["char3"] = dict(decl="character(len=3) :: rv", fout="call vt_str(rv, len(rv, kind=C_LONG))", back="pad")
+
+
 def vector_cases():
     """Fortran-only cases: std::vector arguments and a pointer result with a declared extent."""
     return [F("v1", "int", [P("vec_in", "v"), P("int_v", "k")]),
@@ -393,6 +415,8 @@ def vector_cases():
             F("v11", "iptr23", [P("int_v", "k")]),
             F("v10", "cptr_raw", [P("str_cref", "s"), P("str_ref_inout", "t"), P("int_v", "k")]),
             F("v9", "int", [P("vec_inout_alloc", "v"), P("int_v", "k")]),
+            F("v12", "int", [P("cstrv_in", "names", m="n"), P("out_n", "n")]),
+            F("v13", "int", [P("int_v", "k"), P("cstrv_in", "names", m="n"), P("out_n", "n"), P("cstr_in", "s")]),
             F("v5", "double", [P("vec_in", "a"), P("vec_inout", "b"), P("vec_out_alloc", "c")]),
             # fortran_generic: one C++ function, a generic interface with one specific per listed declaration
             F("v7", "int", [P("double_v", "x"), P("int_v", "k")], fgeneric=[{}, {"x": "float_for_double"}],
